@@ -15,6 +15,8 @@ EXTRA = {
             ("SafeC.Alloc.engine_spec", "SafeC.Proofs.Alloc", "lemma", "every run of the printf engine over any list of format pieces (induction): returns with live blocks unchanged, or is the %ls conversion-failure leak, or the unchecked format-copy null dereference"),
             ("SafeC.Alloc.reorderLoop_wp", "SafeC.Proofs.AllocNorm", "lemma", "loop invariant of wcsnorm_reorder_s (live = seq_ext ++ entry blocks) over any mark pattern: repaired code under every oracle, code as it is when no request fails"),
             ("SafeC.Alloc.composeLoop_wp", "SafeC.Proofs.AllocNorm", "lemma", "the same for wcsnorm_compose_s over any (mark?, composed?) pattern"),
+            ("SafeC.Alloc.keeps_reorderLoop", "SafeC.Proofs.AllocTight", "lemma", "unrepaired reorder loop, any mark pattern, any oracle: no surviving run contains a failed request"),
+            ("SafeC.Alloc.keeps_composeLoop", "SafeC.Proofs.AllocTight", "lemma", "the same for the compose loop"),
             ("SafeC.Alloc.normProg_wp", "SafeC.Proofs.AllocNorm", "lemma", "wcsnorm_s: scratch buffer + reorder + compose composed")],
     "C08": [("SafeC.nullSlack_ok", "SafeC.Lemmas", "lemma", "both slack strategies (memset > 0x20, byte loop) zero the whole tail")],
 }
